@@ -121,11 +121,26 @@ class RealPlay:
         self.raw_slots = []
         self.engine = None
         self.timeouts = 0
+        self.pre_hook_vars = None
 
     def new_engine(self):
         cls = engine_class(self.variant)
         with quiet():
-            return cls(copy.deepcopy(self.story))
+            eng = cls(copy.deepcopy(self.story))
+        if hasattr(eng, "trigger_event"):
+            # harness-side observation (nothing in /repo changes): the variables as they stand when the turn_end hooks start,
+            # so that the C02 oracle can tell "stale after a hook" (finding C02-F1) from any other wrong choice list
+            orig = eng.trigger_event
+
+            def observed(event, *a, **kw):
+                if event == "turn_end":
+                    try:
+                        self.pre_hook_vars = enc(eng.state)
+                    except Unmodelled:
+                        self.pre_hook_vars = None
+                return orig(event, *a, **kw)
+            eng.trigger_event = observed
+        return eng
 
     def start(self):
         """Returns ("ok", state_obs) or ("init_error", kind)."""
@@ -153,6 +168,7 @@ class RealPlay:
     def op(self, oj):
         e = self.engine
         name = oj["op"]
+        self.pre_hook_vars = None
         if name == "choose":
             r = self._call(lambda: {"out": out_obs(e.choose(oj["i"]))})
         elif name == "goto":
@@ -228,7 +244,7 @@ class RealPlay:
             r = self._call(f)
         else:
             raise ValueError("unknown op " + name)
-        return {"resp": r, "state": state_obs(self.engine)}
+        return {"resp": r, "state": state_obs(self.engine), "pre_hook_vars": self.pre_hook_vars}
 
 
 def play(story, ops, variant="main", per_call_s=5.0):
